@@ -417,6 +417,19 @@ fn edit_docs(g: &Grammar) -> Vec<(String, String)> {
             }
         }
         out.push((format!("edit-doc({kind},trailing-comments)"), render(&toks, &gd)));
+        // layout E: the elements of the kind under test stand on the line of the preceding /end (only pushes are judged in
+        // this layout: a line is shared by two objects)
+        let mut ge = HashMap::new();
+        let mut seen_kind = 0;
+        for (i, t) in toks.iter().enumerate() {
+            if t.starts_line && t.depth == 2 && t.kind == TKind::Begin && toks.get(i + 1).map(|x| x.text.as_str()) == Some(kind) {
+                seen_kind += 1;
+                if seen_kind >= 2 {
+                    ge.insert(i, " ".to_string());
+                }
+            }
+        }
+        out.push((format!("edit-doc({kind},siblings-on-one-line)"), render(&toks, &ge)));
     }
     out
 }
@@ -508,6 +521,9 @@ pub fn run(tier: &str) -> Run {
     for (label, text) in &edocs {
         let kind = LIST_KINDS.iter().find(|k| label.starts_with(&format!("edit-doc({k},"))).unwrap();
         for e in edits_for(kind) {
+            if label.contains("siblings-on-one-line") && !matches!(e, Edit::Push(..)) {
+                continue;
+            }
             ecases.push((label.clone(), text.clone(), e));
         }
     }
